@@ -48,6 +48,9 @@ BLOCKS = {
     # state belongs to k = 0; one more period with k frozen at 0 moves the stock by half the last search step
     'time-trend':   ("x = 0.5*LAG_x + D + 10.0*k\nLAG_x = x(k-1)", {'x': {'x': 0.5, '@self': 0.5}, 'LAG_x': {'x': 1.0}}, ['x', 'LAG_x']),
     'time-switch':  ("x = 0.5*LAG_x + D + g\ng = 10.*(k > -1.5)\nLAG_x = x(k-1)", {'x': {'x': 0.5, '@self': 0.5}, 'LAG_x': {'x': 1.0}, 'g': {'@self': 0.0}}, ['x', 'LAG_x']),
+    # a block that hovers around zero: a sign-flipping ripple that decays slowly, started inside the near-zero band
+    'near-zero-ripple': ("x = -0.95*LAG_x + 0*D\nLAG_x = x(k-1)", {'x': {'x': 0.95}, 'LAG_x': {'x': 1.0}}, ['x', 'LAG_x'],
+                         lambda sy, ds: [sy['x'] >= symx.rat(-2e-4), sy['x'] <= symx.rat(2e-4), sy['LAG_x'] >= symx.rat(-2e-4), sy['LAG_x'] <= symx.rat(2e-4)]),
     'deco-balance': ("x = 0.5*LAG_x + D\nbal = 2*D - x\nsav = x - LAG_x\nLAG_x = x(k-1)",
                      {'x': {'x': 0.5, '@self': 0.5}, 'LAG_x': {'x': 1.0}, 'bal': {'x': 0.5, '@self': 0.5}, 'sav': {'x': 0.5, '@self': 0.5}}, ['x', 'LAG_x']),
 }
@@ -147,7 +150,8 @@ def case_run(case):
             big = z3.If(zabs(a) >= zabs(b), zabs(a), zabs(b))
             rel = TOL * big
             lim = z3.If(rel >= TOL, rel, TOL)
-            props.append(z3.Or(diff <= lim * (1 + symx.rat(1e-9)), z3.And(zabs(a) < NEAR, zabs(b) < NEAR)))
+            # near zero (< 1e-4) only the absolute bound applies - two small values are not "equal" just because they are small
+            props.append(z3.If(z3.And(zabs(a) < NEAR, zabs(b) < NEAR), diff <= TOL * (1 + symx.rat(1e-9)), diff <= lim * (1 + symx.rat(1e-9))))
         r, m = D.holds(z3.And(props))
         if r == 'sat' and out['viol'] is None:
             vals = {n: str(m.eval(v, model_completion=True)) for n, v in syms.items()}
@@ -219,7 +223,7 @@ for v, a in x0.items():
     lim = max(tol * max(abs(a), abs(b)), tol) * (1 + 1e-9)
     near = abs(a) < 1e-4 and abs(b) < 1e-4
     print(v, 'installed k=0 value', a, 'next period', b, 'allowed change', lim, '(both near zero)' if near else '')
-    if abs(b - a) > lim * (1 + 1e-12) and not near: bad = True
+    if abs(b - a) > (tol * (1 + 1e-9) if near else lim) * (1 + 1e-12): bad = True
 sys.exit(1 if bad else 0)
 '''
 
